@@ -301,18 +301,21 @@ class Inliner:
         self.inlined_calls: set[int] = set()  # id() of the ORIGINAL call nodes that were replaced
 
     # -- eligibility
-    def _callee(self, fctx: FuncInfo, call: ast.Call, stack: tuple) -> Optional[FuncInfo]:
+    def _callee(self, fctx: FuncInfo, call: ast.Call, stack: tuple, generator: bool = False, g: Optional[FuncInfo] = None) -> Optional[FuncInfo]:
         if isinstance(call.func, ast.Attribute) and isinstance(call.func.value, ast.Call) and getattr(call.func.value.func, "id", "") == "super":
             return None
-        try:
-            cands = self.R.resolve_call(fctx, call)
-        except Exception:
-            return None
-        fs = [c for c in cands if isinstance(c, FuncInfo)]
-        if len(fs) != 1 or len(cands) != 1:
-            return None
-        g = fs[0]
-        if g.qual in stack or g.qual in self.keep or g.name in self.keep or not self.policy(g):
+        if g is None:
+            try:
+                cands = self.R.resolve_call(fctx, call)
+            except Exception:
+                return None
+            fs = [c for c in cands if isinstance(c, FuncInfo)]
+            if len(fs) != 1 or len(cands) != 1:
+                return None
+            g = fs[0]
+            if not self.policy(g):
+                return None
+        if g.qual in stack or g.qual in self.keep or g.name in self.keep:
             return None
         if isinstance(g.node, ast.AsyncFunctionDef) or g.kind in ("getter", "setter") or g.outer is not None:
             return None
@@ -322,11 +325,23 @@ class Inliner:
         if a.kwarg:
             return None
         n_st = 0
+        has_yield = False
         for n in walk_local(g.node):
-            if isinstance(n, (ast.Yield, ast.YieldFrom, ast.Global, ast.Nonlocal, ast.AsyncFunctionDef, ast.ClassDef)):
+            if isinstance(n, (ast.Yield, ast.YieldFrom)):
+                has_yield = True
+                par = getattr(n, "_parent", None)
+                if not generator or not isinstance(par, ast.Expr):
+                    return None  # only `yield v` / `yield from it` as statements can be fused
+            if isinstance(n, (ast.Global, ast.Nonlocal, ast.AsyncFunctionDef, ast.ClassDef)):
                 return None
+            if generator and isinstance(n, ast.Return) and n.value is not None:
+                return None
+            if generator and isinstance(n, (ast.Try, ast.With)) and any(isinstance(x, (ast.Yield, ast.YieldFrom)) for x in ast.walk(n)):
+                return None  # suspension inside try / with: cleanup timing would change
             if isinstance(n, ast.stmt):
                 n_st += 1
+        if generator != has_yield:
+            return None
         if n_st > MAX_STMTS:
             return None
         if any(isinstance(x, ast.Starred) for x in call.args) or any(k.arg is None for k in call.keywords):
@@ -523,6 +538,11 @@ class Inliner:
         if isinstance(st, ast.Match):
             for c, oc in zip(st.cases, ost.cases):
                 c.body = self._stmts(fctx, c.body, stack, oc.body, caller_names)
+        # for x in self._gen(..): BODY   /   for x in obj: BODY (obj.__iter__ a repository generator)
+        if isinstance(st, ast.For) and not st.orelse:
+            fused = self._fuse_generator(fctx, st, ost, stack, caller_names)
+            if fused is not None:
+                return fused
         # x = helper(..) if c else y   ->   if c: x = helper(..) else: x = y   (then spliced)
         if isinstance(st, (ast.Assign, ast.AnnAssign, ast.Return)) and isinstance(st.value, ast.IfExp) and not isinstance(getattr(st, "target", None), (ast.Tuple,)):
             ie, oie = st.value, ost.value
@@ -611,6 +631,99 @@ class Inliner:
         # expression substitution anywhere inside this statement's own expressions
         self._subst_exprs(fctx, st, ost, stack)
         return [st]
+
+    def _fuse_generator(self, fctx, st: ast.For, ost: ast.For, stack, caller_names) -> Optional[list[ast.stmt]]:
+        """Generator-loop fusion: the generator's body with every ``yield v`` replaced by
+        ``target = v`` + the loop body (``yield from it`` by a loop over ``it``)."""
+        g = None
+        call = None
+        if isinstance(ost.iter, ast.Call):
+            g = self._callee(fctx, ost.iter, stack, generator=True)
+            call = st.iter
+        else:
+            # iteration over an object whose class defines __iter__ as a generator
+            try:
+                t = self.R.expr_type(fctx, ost.iter)
+            except Exception:
+                t = None
+            if t is not None and len(t.classes) == 1 and not t.meta and _is_simple(ost.iter):
+                ci = self.R.repo.classes[next(iter(t.classes))]
+                m = self.R.repo.find_member(ci, "__iter__")
+                subs = [c for c in self.R.repo.subclasses(ci) if "__iter__" in c.methods]
+                if m is not None and not subs:
+                    g = self._callee(fctx, ast.Call(func=ast.Attribute(value=ost.iter, attr="__iter__", ctx=ast.Load()), args=[], keywords=[]), stack, generator=True, g=m)
+                    call = ast.copy_location(ast.Call(func=ast.Attribute(value=st.iter, attr="__iter__", ctx=ast.Load()), args=[], keywords=[]), st)
+        if g is None:
+            return None
+        try:
+            # `continue` of this loop = "done with this item": structured away; `break` cannot be fused
+            body = list(st.body)
+            for n in walk_local(ast.Module(body=body, type_ignores=[])):
+                if isinstance(n, (ast.Break, ast.Continue)):
+                    lp = n
+                    own = True
+                    p_ = getattr(n, "_parent", None)
+                    while p_ is not None and p_ is not st:
+                        if isinstance(p_, (ast.For, ast.While)):
+                            own = False
+                            break
+                        p_ = getattr(p_, "_parent", None)
+                    if own and isinstance(n, ast.Break):
+                        raise _Bail("break in the consuming loop")
+                    if own:
+                        n.__class__ = ast.Return  # temporarily: eliminated structurally below
+                        n.value = None
+                        n._was_continue = True  # type: ignore[attr-defined]
+            has_ret = any(isinstance(n, ast.Return) and not getattr(n, "_was_continue", False) for n in walk_local(ast.Module(body=body, type_ignores=[])))
+            if any(getattr(n, "_was_continue", False) for n in walk_local(ast.Module(body=body, type_ignores=[]))):
+                if has_ret:
+                    raise _Bail("continue and return mixed in the consuming loop")
+                body, _k = _Elim(lambda val, s_: [], False).run(body, True)
+            self._fctx = fctx
+            pre, gbody = self._prepare(g, call, caller_names, stack)
+            n_sites = [0]
+
+            def repl(stmts):
+                out = []
+                for s_ in stmts:
+                    if isinstance(s_, ast.Expr) and isinstance(s_.value, ast.Yield):
+                        n_sites[0] += 1
+                        v = s_.value.value if s_.value.value is not None else ast.Constant(value=None)
+                        out.append(ast.copy_location(ast.Assign(targets=[clone(st.target)], value=v), s_))
+                        out.extend(clone(b) for b in body)
+                        continue
+                    if isinstance(s_, ast.Expr) and isinstance(s_.value, ast.YieldFrom):
+                        n_sites[0] += 1
+                        out.append(ast.copy_location(ast.For(target=clone(st.target), iter=s_.value.value, body=[clone(b) for b in body], orelse=[], type_comment=None), s_))
+                        continue
+                    if not isinstance(s_, (ast.FunctionDef, ast.AsyncFunctionDef, ast.ClassDef)):
+                        for fld in ("body", "orelse", "finalbody"):
+                            sub = getattr(s_, fld, None)
+                            if isinstance(sub, list) and sub and isinstance(sub[0], ast.stmt):
+                                setattr(s_, fld, repl(sub))
+                        if isinstance(s_, ast.Try):
+                            for h in s_.handlers:
+                                h.body = repl(h.body)
+                    out.append(s_)
+                return out
+
+            new = pre + repl(gbody)
+            if n_sites[0] == 0 or n_sites[0] > 3:
+                raise _Bail("no / too many yield sites")
+            for s_ in new:
+                ast.fix_missing_locations(s_)
+            self.inlined.append(g.qual)
+            if isinstance(ost.iter, ast.Call):
+                self.inlined_calls.add(id(ost.iter))
+            caller_names |= _all_names(ast.Module(body=new, type_ignores=[]))
+            return new
+        except _Bail as ex:
+            self.skipped.append((g.qual, str(ex)))
+            # undo the temporary continue -> return marking
+            for n in walk_local(ast.Module(body=list(st.body), type_ignores=[])):
+                if getattr(n, "_was_continue", False):
+                    n.__class__ = ast.Continue
+            return None
 
     def _hoist(self, fctx, st, stack, caller_names) -> Optional[list[ast.stmt]]:
         # deliberately narrow: `x op= helper(..)` and `if helper(..) <cmp> ..:` only - hoisting out of
